@@ -1,6 +1,7 @@
 package plush
 
 import (
+	"errors"
 	"fmt"
 	"sync/atomic"
 	"unsafe"
@@ -75,7 +76,32 @@ const maxCallDepth = 1000
 const maxWriteDepth = 100000
 
 func tooDeep() error {
-	return fmt.Errorf("blocks, function calls and partials nested more than %d deep", maxCallDepth)
+	return &depthError{fmt.Sprintf("blocks, function calls and partials nested more than %d deep", maxCallDepth)}
+}
+
+// depthError says that a rendering is nested too deep. On its way out of the
+// thousands of calls it has to leave it is passed on as it is: naming every
+// one of them ("could not call f function: could not call f function: ...")
+// would take longer than everything before.
+type depthError struct{ msg string }
+
+func (e *depthError) Error() string { return e.msg }
+
+func isDepthError(err error) (deep bool) {
+	// (the chain is made of the caller's own error values as well: an Unwrap
+	// that panics, or one that returns the error itself, ends the walk)
+	defer func() {
+		if recover() != nil {
+			deep = false
+		}
+	}()
+	for steps := 0; err != nil && steps < 1000; steps++ {
+		if _, ok := err.(*depthError); ok {
+			return true
+		}
+		err = errors.Unwrap(err)
+	}
+	return false
 }
 
 // blockSignal is how the block of one helper call tells that call's
@@ -1303,6 +1329,9 @@ func (c *compiler) evalCallExpression(node *ast.CallExpression) (interface{}, er
 	}
 	if len(res) > 0 {
 		if e, ok := res[len(res)-1].Interface().(error); ok && !isNilPointer(e) {
+			if isDepthError(e) {
+				return nil, e
+			}
 			return nil, fmt.Errorf("could not call %s function: %w", node.Function, e)
 		}
 		if node.ChainCallee != nil {
